@@ -30,8 +30,7 @@ struct IdxUnit : Unit
    std::vector<int> model;
    int O_addIdx, O_addArr, O_addSet, O_addN, O_rem0, O_remLast, O_remMid, O_remRangeHead, O_remRangeMid, O_remRangeTail, O_clear,
        O_copy, O_assign, O_setMax, O_fromIdxSet;
-   static const int UNIVERSE = 64;
-   static const int GUARD = -777;
+   enum { UNIVERSE = 64, GUARD = -777 };
 
    IdxUnit(const char* nm)
    {
@@ -629,7 +628,7 @@ struct HashUnit : Unit
    std::map<int, int> model;      // a -> v
    int nextVal = 1;
    int O_add, O_remPresent, O_remAbsent, O_clear, O_reMaxGrow, O_reMaxFit, O_reMaxHash1, O_copy, O_assign;
-   static const int UNIVERSE = 90;
+   enum { UNIVERSE = 90 };
 
    HashUnit(const char* nm)
    {
